@@ -805,7 +805,7 @@ def gen_cases(rs, tier, routines=None):
         W = to_list(A)
         c = {'routine': routine, 'W': W, 'gamma': kw.pop('gamma', None) or gam(), 'opt': opt, 'ci0': ci0, 'seed': rnd_seed(), 'family': fam[0]}
         c.update(kw)
-        if routine == 'modularity_louvain_dir' and (len(W) > LARGE_N or (c.get('scale') or 0) < 0):
+        if routine == 'modularity_louvain_dir' and (len(W) > LARGE_N or c.get('scale')):
             c['level1_only'] = True     # D6 is accepted only through the Lean replay; where that is unavailable judge what is true of the code
         u = rs.rand()
         if not c.get('scale') and not c.get('malformed') and u < .24:
@@ -937,7 +937,8 @@ def gen_cases(rs, tier, routines=None):
     fam[0] = 'g-scale'
     # (g) scale axis: the same integer network times an exact dyadic factor.  Q is invariant under W -> cW, the code's absolute
     #     constants (1e-10 gain threshold, np.allclose / np.min(W) < -1e-10 style tests) are not: moves may legitimately differ at
-    #     tiny scales, so these runs are judged by the predicates only (no replay)
+    #     tiny scales - and at 2**20 the rounding residue of an exactly-zero gain (1e-16) is amplified past 1e-10, so bct may accept a
+    #     zero-gain move there - so these runs are judged by the predicates only (no replay)
     for (r, opt) in variants:
         if opt == 'potts':
             continue                      # requires a 0/1 matrix
@@ -955,8 +956,6 @@ def gen_cases(rs, tier, routines=None):
                 if r in TAKES_CI and rs.rand() < .7:
                     k = int(rs.randint(1, n + 1))
                     ci0 = encode_partition(rs, _rg_canon(rs.randint(0, k, size=n).tolist()))
-                if r == 'modularity_louvain_dir' and e > 0:
-                    extra['replay_ok'] = True     # at 2**20 every float operation scales exactly and no gain lies in (1e-10/c, 1e-10]
                 add(r, A, opt, ci0, scale=e, **extra)
     fam[0] = 'h-tolerance-window'
     # (h) the window in which absolute tolerances bite: weights below ~1e-8 (np.allclose's atol, 'is it symmetric?' style tests)
@@ -1516,7 +1515,7 @@ def run_check(ck, preds):
             pass
         elif c['routine'] in REPLAY_OPS and c.get('variant') == 'float32':
             ck.count('replay_skipped_float32')    # single-precision rounding decides ties differently; predicates (1e-5) + q correspondence only
-        elif c['routine'] in REPLAY_OPS and c.get('scale') and not c.get('replay_ok'):
+        elif c['routine'] in REPLAY_OPS and c.get('scale'):
             ck.count('replay_skipped_scaled')     # absolute thresholds are not scale invariant: predicates only
         elif c['routine'] in REPLAY_OPS and _dyadic(c['gamma']):
             rlines.append(replay_line(c, r)); ridx.append(n_)
